@@ -4,6 +4,7 @@ MACHINE_REAL = ["pkg/machine (Machine, queue, resolver, handler loop, subscripti
 
 META = {
     "C04": {
+        "deadlock_is_violation": True,
         "budget": {"quick": 25, "thorough": 600},
         "rule": "one run = schema + handler behaviours + 2..6 caller tasks drawn from the seed, executed under the seeded scheduler with scheduling points in queueMutation/processQueue; a run is non-trivial if it contains at least one context switch; distinct = distinct event-log hashes (schedule decisions + every API result) among those runs",
         "components": {"real": MACHINE_REAL, "stub": []},
